@@ -1,8 +1,1 @@
 //! Scratch experiments (not registered for any property).
-use crate::bytesearch::*;
-inst!(exp_avx2_one_28_36, [props=C99 tier=quick cfg=x86std t=1800 uw=find_raw.0:2;find_raw.1:3;byte_by_byte:2], 3,
-    x86::find::<67>(1, 1, false, 28, 36, 32));
-inst!(exp_avx2_three_28_36, [props=C99 tier=quick cfg=x86std t=1800 uw=find_raw.0:2;find_raw.1:3;byte_by_byte:2], 3,
-    x86::find::<67>(1, 3, true, 28, 36, 32));
-inst!(exp_sse2_one_lowunwind, [props=C99 tier=quick cfg=x86std t=1800 uw=find_raw.0:2;find_raw.1:4;byte_by_byte:17], 3,
-    x86::find::<55>(0, 1, false, 0, 40, 16));
